@@ -159,7 +159,21 @@ static void table_new(size_t range) {
     RANGE = T->range;
     abandon = false;
 }
+/* a second, unrelated table used in between (every other history): the same key strings, other values, a slow walk. Nothing the library
+ * remembers across calls may be shared between two tables; the decoy's own results are not judged, the main table's oracles see the damage. */
+static qhashtbl_t *DECOY; static qhashtbl_obj_t DECOY_CUR;
+static void decoy_new(size_t range) { DECOY = qhashtbl(range, 0); memset(&DECOY_CUR, 0, sizeof DECOY_CUR); if (DECOY) vf_count("histories_with_a_second_table_used_in_between", 1); }
+static void decoy_step(void) {
+    if (!DECOY || !NU) return;
+    int e = errno; const char *k = UK[rng_below(&R, (uint32_t)NU)]; uint32_t c = rng_below(&R, 5); char v[24]; size_t vl = 1 + rng_below(&R, sizeof v - 1); memset(v, 'D' + (int)c, vl); v[vl] = 0;
+    if (c <= 1) { DECOY->put(DECOY, k, v, vl + 1); memset(&DECOY_CUR, 0, sizeof DECOY_CUR); }
+    else if (c == 2) { DECOY->remove(DECOY, k); memset(&DECOY_CUR, 0, sizeof DECOY_CUR); }
+    else if (c == 3) { size_t sz; void *d = DECOY->get(DECOY, k, &sz, true); free(d); }
+    else if (!DECOY->getnext(DECOY, &DECOY_CUR, false)) memset(&DECOY_CUR, 0, sizeof DECOY_CUR);
+    vf_count("operations_on_the_second_table", 1); errno = e;
+}
 static void table_free(void) {
+    if (DECOY) { DECOY->free(DECOY); DECOY = NULL; }
     T->free(T); T = NULL;
     long live = vf_ledger_live_since(ledger_mark);
     vf_count("containers_released", 1);
@@ -279,10 +293,12 @@ static void history(long caseno) {
     int nops = VF.thorough ? 4000 : 1500;
     vf_case_begin(caseno, "random history: range=%zu universe=%d keystyle=%d ops=%d", range, NU, style, nops);
     table_new(range);
+    if (caseno & 1) decoy_new(range);
     bool small = NU <= 48;
     for (int op = 0; op < nops && !abandon; op++) {
         uint32_t c = rng_below(&R, 100);
         bool mut = false;
+        if (DECOY && rng_chance(&R, 1, 3)) decoy_step();
         if (c < 38) { op_put(pick_key()); mut = true; }
         else if (c < 50) { int id = pick_key(); op_remove(id, "remove_random_present"); mut = true; }
         else if (c < 62) { op_remove_by_position((int)rng_below(&R, 4)); mut = true; }
